@@ -1,2 +1,4 @@
 pub mod rules;
 pub mod san;
+pub mod solver;
+pub mod tb;
